@@ -15,7 +15,28 @@ if sys.path[0] != REPO_SRC:
 
 warnings.filterwarnings("ignore", category=SyntaxWarning)
 warnings.filterwarnings("ignore", category=RuntimeWarning)  # 'coroutine ... was never awaited' of orphaned siblings
-logging.disable(logging.CRITICAL)
+
+
+class _FormatAndDiscard(logging.Handler):
+    """
+    ahbicht sets its loggers to DEBUG and logs on every step: in production every `isEnabledFor` guard is true and
+    every lazy %s argument is formatted. Logging therefore stays *on* in the simulation (code behind a log-level guard
+    runs, log arguments are evaluated) - the records are formatted and thrown away.
+    """
+
+    def emit(self, record):
+        try:
+            record.getMessage()
+            if record.exc_info:
+                logging.Formatter().formatException(record.exc_info)
+        except Exception:  # pylint:disable=broad-except
+            pass  # like logging's own handlers (Handler.handleError): a formatting problem never reaches the caller
+
+
+logging.disable(logging.NOTSET)
+_root_logger = logging.getLogger()
+_root_logger.handlers[:] = [_FormatAndDiscard(level=1)]
+_root_logger.setLevel(1)
 
 # order matters: ahbicht.content_evaluation must come before expression_resolver (circular import otherwise)
 import ahbicht  # noqa: E402
